@@ -390,6 +390,8 @@ const SCRIPTS: &[&str] = &[
     "10 PRINT \"é\":GOTO 10\nRENUM 100\nLIST",
     "RENUM 10,0,0\nLIST",
     "PRINT -(-32767-1);ABS(-32767-1)",
+    "10 FOR I=1 TO 140:PRINT STRING$(250,65);:NEXT\n20 PRINT TAB(5);1;TAB(255);POS(0),2;SPC(9);\nRUN\nPRINT TAB(3);POS(0)",
+    "PRINT VAL(\"21.5°C\");VAL(\"€\");VAL(\" 1é\");VAL(\"é1\")",
 ];
 
 fn gen_scripts(part: usize, parts: usize, _th: bool, emit: &mut dyn FnMut(&str)) {
